@@ -34,8 +34,7 @@ TRUSTED = ['A1 float == real; A2 object arrays == float arrays',
 ASSUMPTIONS = ['step ratio real > 1 or complex with modulus > 1 (q = 1/r with 0 < |q| < 1); matrix non-singular',
                'sequence entries finite reals / complex numbers (no NaN)']
 NOT_DECIDED = ['"up to conditioning-scaled rounding"']
-BOUNDED = []
-EXECUTED = ['integer-config: integer-typed step_ratio/step/order compared with the float configuration on %d concrete configurations (exact equality)']
+BOUNDED = ['integer-config: integer-typed step_ratio/step/order compared with the float configuration on 6 concrete configurations (executed with the real numpy, not proved)']
 QUANTIFIED = 'L, a_j, h, q (real) or (qre, qim) (complex), all table entries in the error-estimate obligations: ' \
              'universally quantified; step, order, num_terms, sequence length enumerated over the property\'s ranges'
 
@@ -392,7 +391,7 @@ def run_intcfg():
         wb = ex.Richardson(step_ratio=float(ratio), step=float(step), order=float(order), num_terms=nt).rule()
         if not np.array_equal(np.asarray(wa, dtype=float), np.asarray(wb, dtype=float)):
             bad.append(('rule', str((ratio, step, order, nt)), np.asarray(wa).tolist(), np.asarray(wb).tolist()))
-    solve.fact('integer-typed-configuration-gives-the-float-matrix-and-rule[%d configs]' % len(INT_CFGS), not bad, note=str(bad[:2])[:300])
+    solve.fact('integer-typed-configuration-gives-the-float-matrix-and-rule[%d configs]' % len(INT_CFGS), not bad, kind='bounded', note=str(bad[:2])[:300])
     return {}
 
 
